@@ -40,6 +40,7 @@ type c09In struct {
 	Body    string `json:"body"`            // valid | invalid | none
 	Accept  string `json:"accept"`          // json | png | absent | any
 	Key     string `json:"key"`             // good | bad | absent
+	BadN    bool   `json:"bad_n,omitempty"` // target find: the integer query parameter n carries the text bad-<rid> (binding fails, the error names the value)
 	Esc     bool   `json:"esc,omitempty"`   // the id segment carries percent-escapes (URL.Path differs from URL.EscapedPath)
 	Ops     []int  `json:"ops,omitempty"`   // 0 RouteInfo 1 ContentType 2 ResponseFormat(route offers) 3 ResponseFormat(other offers) 4 Authorize 5 BindAndValidate 6 ResetAuth
 	N       int    `json:"n,omitempty"`     // conc: number of goroutines
@@ -140,7 +141,7 @@ func c09Spec(anon bool) string {
 "paths":{"/items/{id}":{"post":{"security":` + sec + `,"parameters":[{"name":"id","in":"path","type":"string","required":true},
 {"name":"body","in":"body","required":true,"schema":{"type":"object"}}],"responses":{"200":{"description":"ok"}}}},
 "/open":{"get":{"responses":{"200":{"description":"ok"}}}},
-"/find/{id}":{"get":{"parameters":[{"name":"id","in":"path","type":"string","required":true},{"name":"q","in":"query","type":"string"}],"responses":{"200":{"description":"ok"}}}}}}`
+"/find/{id}":{"get":{"parameters":[{"name":"id","in":"path","type":"string","required":true},{"name":"q","in":"query","type":"string"},{"name":"n","in":"query","type":"integer","format":"int64"}],"responses":{"200":{"description":"ok"}}}}}}`
 }
 
 func c09Get(anon bool, authz bool) *c09API {
@@ -249,6 +250,9 @@ func c09Request(in c09In, rid string) *http.Request {
 			path += "%2Fz%20%C3%A9"
 		}
 		path += "?q=orig-" + rid
+		if in.BadN {
+			path += "&n=bad-" + rid
+		}
 	case "missing":
 		method, path = "GET", "/nothing/here"
 	}
@@ -345,6 +349,9 @@ func c09Static(in c09In, a *c09API) string {
 		authorizer = fmt.Sprintf("(Some %s)", coqBool(in.Authz != "deny"))
 	}
 	bindOK := in.Target != "items" || !hasBody || in.Body == "valid" // a missing required body is not refused by the binder
+	if in.Target == "find" && in.BadN {
+		bindOK = false
+	}
 	return fmt.Sprintf("(mkstatic %s %s %s %s %s %s (fun k => match k with 0 => %s | _ => %s end) 0 true %s %s %s)",
 		c09OptNat(route != 0, route), coqBool(in.Target == "items"), coqBool(hasBody),
 		c09OptNat(cterr == nil, c09MT(mt)), coqBool(cterr == nil && mt == "application/json"), coqBool(cterr == nil && mt == "application/json"),
@@ -611,6 +618,10 @@ func c09RunConc(in c09In, a *c09API, obs *c09Obs) {
 		j.CT = []string{"json", "json", "jsoncs", "text", "absent"}[r.Intn(5)]
 		j.Accept = []string{"json", "absent", "png", "any", "star"}[r.Intn(5)]
 		j.Esc = r.Intn(3) == 0
+		j.BadN = r.Intn(2) == 0
+		if r.Intn(3) == 0 {
+			j.Target = "find"
+		}
 		jobs = append(jobs, job{j, fmt.Sprintf("r%d", i)})
 	}
 	// reference: every request served alone, one after the other
@@ -752,7 +763,7 @@ func (c09) Gen(r *rand.Rand, tier string, i int) any {
 		return m
 	}
 	in := c09In{Kind: "seq", Anon: r.Intn(2) == 0, Authz: c09Pick(r, "authz"), Target: c09Pick(r, "target"), CT: c09Pick(r, "ct"),
-		Body: c09Pick(r, "body"), Accept: c09Pick(r, "accept"), Key: c09Pick(r, "key"), Esc: r.Intn(3) == 0}
+		Body: c09Pick(r, "body"), Accept: c09Pick(r, "accept"), Key: c09Pick(r, "key"), Esc: r.Intn(3) == 0, BadN: r.Intn(4) == 0}
 	n := 1 + r.Intn(14)
 	if r.Intn(3) != 0 {
 		in.Ops = append(in.Ops, 0) // most histories start by matching the route, as the pipeline does
